@@ -226,14 +226,22 @@ def observe(s, q, aq, rng, missing):
             # the ranking that is collapsed: by score, or (where every document has the key) by a field
             sort = [] if missing or rng.random() < 0.5 else [[rng.choice(single), rng.random() < 0.4]]
 
-            def cfn(fn=fn, n=n, k=k, sort=sort):
+            # which documents of a key are its best: the first in the ranking, or by a separate order facet
+            order = [] if missing or rng.random() < 0.5 else [[rng.choice(single), rng.random() < 0.4]]
+
+            def cfn(fn=fn, n=n, k=k, sort=sort, order=order):
                 def mk():
                     kw = {}
                     if sort:
                         kw["sortedby"] = sorting.FieldFacet(sort[0][0], reverse=sort[0][1])
+                    if order:
+                        kw["collapse_order"] = sorting.FieldFacet(order[0][0], reverse=order[0][1])
                     r = s.search(q, limit=k or None, collapse=fn, collapse_limit=n, **kw)
-                    return {"kind": "collapse", "path": "collapse=%s limit=%d k=%d sortedby=%s" % (fn, n, k, sort),
-                            "f": fn, "n": n, "k": k, "sort": sort, "docs": [int(h.docnum) for h in r]}
+                    return {"kind": "collapse", "path": "collapse=%s limit=%d k=%d sortedby=%s collapse_order=%s" % (
+                            fn, n, k, sort, order), "f": fn, "n": n, "k": k, "sort": sort, "order": order,
+                            "collapsed": int(sum(r.collapsed_counts.values())) if k == 0 else -1,
+                            "len": len(r),
+                            "docs": [int(h.docnum) for h in r]}
                 limited(mk)
             guard("collapse:" + fn, cfn)
         # filter / mask
